@@ -891,7 +891,7 @@ func disassembleText(txt []byte, size int) string {
 		size--
 		var p int
 		for i := 0; i < size; i++ {
-			_, s := utf8.DecodeRune(txt)
+			_, s := utf8.DecodeRune(txt[p:])
 			p += s
 		}
 		txt = txt[:p]
